@@ -26,13 +26,13 @@ theorem Rd.fillBuf_ok (r : Rd) (h : Rd.Ok r) :
   · rw [if_neg hav, hf]
     cases hd : r.data with
     | nil =>
-      refine ⟨r, ?_, ⟨by omega, hf⟩, hd.symm, hf, fun h => absurd rfl h, fun _ => by omega⟩
-      simp [hd]
+      refine ⟨r, ?_, ⟨by omega, hf⟩, hd, hf, fun h => absurd rfl h, fun _ => by omega⟩
+      simp
     | cons x xs =>
       simp only [List.isEmpty_cons, Bool.false_eq_true, if_false]
       refine ⟨{ r with avail := min (max 1 (r.sched.headD (x :: xs).length)) (x :: xs).length,
                        sched := r.sched.tail }, ?_, ⟨?_, hf⟩, hd, hf, ?_, ?_⟩
-      · simp only [hd]
+      · simp only [hd, hf]
       · simp only [hd]; exact Nat.min_le_right _ _
       · intro _; simp only [List.length_cons]; omega
       · intro h; exact absurd h (by simp)
@@ -75,10 +75,13 @@ theorem Rd.readToEnd_schedule_free_ok (fuel : Nat) (r : Rd) (h : Rd.Ok r) (hfuel
         | cons _ _ => rfl
       simp only [hnemp, Bool.false_eq_true, if_false, hlen]
       have hok2 := Rd.consume_ok r' r'.avail hok
+      have hle : r'.avail ≤ r.data.length := hd ▸ hok.1
       have hlt : (r'.consume r'.avail).data.length < fuel := by
         rw [Rd.consume_data, hd, List.length_drop]; omega
       obtain ⟨r'', he2, hd2, hok3⟩ := ih (r'.consume r'.avail) hok2 hlt
-      rw [he2, Rd.consume_data, hd, List.take_append_drop]
+      rw [he2, Rd.consume_data, hd]
+      dsimp only
+      rw [List.take_append_drop]
       exact ⟨r'', rfl, hd2, hok3⟩
 
 theorem Rd.readToEnd_schedule_free (fuel : Nat) (r : Rd) (h : Rd.Ok r) (hfuel : r.data.length < fuel) :
